@@ -157,6 +157,7 @@ func runC11(a *A) {
 	})
 	a.Rule("shape/keyword-case", 3, func() { a.ruleKeywordCase() })
 	a.Rule("flow/no-state-between-list-items", 12, func() { a.ruleNoStateBetweenListItems("rsql") })
+	a.Rule("tables/clause-terminators", 12, func() { a.ruleClauseTerminators() })
 	a.Rule("shape/layout-and-case", 2, func() {
 		li := a.Method("rsql", "Lexer", "lookupIdent")
 		// the switch tag derives from strings.ToUpper/ToLower of the identifier parameter
@@ -508,4 +509,104 @@ func carriedBy(v ssa.Value, head *ssa.BasicBlock) *ssa.Phi {
 	}
 	walk(v, 0)
 	return found
+}
+
+// ruleClauseTerminators: the parser runs the clause parsers in a fixed order (Parser.Parse). The
+// parsers of WHERE, GROUP BY and HAVING collect raw predicate text token by token until they meet the
+// keyword of a later clause; a later clause keyword that a collecting parser never even compares the
+// token type with cannot end its text, so the later clause is swallowed into the predicate (HAVING s > 5
+// ORDER BY s DESC compiled "s > 5 ORDER BY s DESC" and failed open). For every collecting parser P and
+// every clause parser Q called after P whose clause starts with keyword token K: K is among the token
+// types P compares with.
+func (a *A) ruleClauseTerminators() int {
+	parse := a.Method("rsql", "Parser", "Parse")
+	tokT := a.Named("rsql", "TokenType")
+	// dispatch order: static calls of (*Parser).parseX in Parse, by position
+	type cl struct {
+		fn  *ssa.Function
+		pos token.Pos
+	}
+	var order []cl
+	allInstrs(parse, func(in ssa.Instruction) {
+		if cc := callCommon(in); cc != nil {
+			if f := cc.StaticCallee(); f != nil && a.fnInModule(f) && strings.HasPrefix(f.Name(), "parse") && f.Signature.Recv() != nil {
+				order = append(order, cl{f, in.Pos()})
+			}
+		}
+	})
+	sort.Slice(order, func(i, j int) bool { return order[i].pos < order[j].pos })
+	// token constants a function compares a token type with
+	compared := func(fn *ssa.Function) map[string]bool {
+		out := map[string]bool{}
+		for _, f := range withClosures(fn) {
+			allInstrs(f, func(in ssa.Instruction) {
+				bo, ok := in.(*ssa.BinOp)
+				if !ok || bo.Op != token.EQL && bo.Op != token.NEQ {
+					return
+				}
+				for _, v := range []ssa.Value{bo.X, bo.Y} {
+					if k, ok := v.(*ssa.Const); ok && k.Value != nil && types.Identical(k.Type(), tokT) {
+						out[a.tokenName(k)] = true
+					}
+				}
+			})
+		}
+		return out
+	}
+	// the keyword a clause starts with, by the parser's name (parseWhere -> TokenWHERE ...), resolved
+	// against the declared constants case-insensitively
+	keywordOf := func(fn *ssa.Function) string {
+		want := strings.ToUpper(strings.TrimPrefix(fn.Name(), "parse"))
+		want = strings.TrimSuffix(want, "BY") // parseGroupBy -> GROUP, parseOrderBy -> ORDER
+		for name := range a.tokenConsts() {
+			if strings.ToUpper(strings.TrimPrefix(name, "Token")) == want {
+				return name
+			}
+		}
+		return ""
+	}
+	collecting := map[string]bool{"parseWhere": true, "parseGroupBy": true, "parseHaving": true}
+	n := 0
+	for i, p := range order {
+		if !collecting[p.fn.Name()] {
+			continue
+		}
+		cmp := compared(p.fn)
+		for _, q := range order[i+1:] {
+			k := keywordOf(q.fn)
+			if k == "" || !collecting[q.fn.Name()] && q.fn.Name() != "parseOrderBy" && q.fn.Name() != "parseLimit" && q.fn.Name() != "parseWith" {
+				continue
+			}
+			n++
+			a.Check(cmp[k], fmt.Sprintf("%s#stops-at-%s", fname(p.fn), k), p.fn.Pos(),
+				"the text collected by "+p.fn.Name()+" can end at "+k,
+				p.fn.Name()+" never compares a token with "+k+": the "+strings.TrimPrefix(k, "Token")+" clause that may follow is swallowed into its predicate text")
+		}
+	}
+	return n
+}
+
+// tokenConsts: declared constants of type rsql.TokenType by name -> value.
+func (a *A) tokenConsts() map[string]int64 {
+	out := map[string]int64{}
+	tokT := a.Named("rsql", "TokenType")
+	sc := a.Pkg("rsql").Pkg.Scope()
+	for _, nm := range sc.Names() {
+		if c, ok := sc.Lookup(nm).(*types.Const); ok && types.Identical(c.Type(), tokT) {
+			if v, ok := constant.Int64Val(c.Val()); ok {
+				out[nm] = v
+			}
+		}
+	}
+	return out
+}
+
+func (a *A) tokenName(k *ssa.Const) string {
+	v := k.Int64()
+	for nm, x := range a.tokenConsts() {
+		if x == v {
+			return nm
+		}
+	}
+	return fmt.Sprint(v)
 }
